@@ -4,6 +4,7 @@ CONSTANTS
   PerProg = 27
   SmallNames <- SmallNamesQuick
   Ifaces = 2
+  BuilderSets = 2
   Variant <- VariantFast
   Wire <- WireFast
   Near <- NearFast
